@@ -186,6 +186,26 @@ def parse_gen(line):
     return ('OK', aux, fx, sorted(cs))
 
 
+def run_restarting(exe, args, lines, timeout=1800):
+    """like run_lines for a harness that exits after printing a 'HANG ...' line: restart it on the remaining cases"""
+    out = []
+    rest = list(lines)
+    errs = ''
+    while rest:
+        rc, o, err, dt = C.sh([exe] + args, input='\n'.join(rest) + '\n', timeout=timeout)
+        o = [l for l in o.split('\n') if l.strip()]
+        errs = err
+        if rc == 3 and o and o[-1].startswith('HANG'):
+            out += o
+            rest = rest[len(o):]
+            continue
+        out += o
+        if rc != 0 or len(o) < len(rest):
+            return rc if rc != 0 else 1, out, errs
+        rest = []
+    return 0, out, errs
+
+
 def run_lines(exe, args, lines, timeout=900):
     rc, out, err, dt = C.sh([exe] + args, input='\n'.join(lines) + '\n', timeout=timeout)
     return rc, out.split('\n'), err
@@ -285,6 +305,120 @@ def gen_layout_case(rng, idx):
     return case
 
 
+def feasible(nvars, cs):
+    """exact feasibility of a system of separation constraints x_l + g <= x_r (== when eq): no positive cycle
+    (Bellman-Ford longest paths over Fractions; the gaps are dyadic so Fraction(float) is exact)"""
+    edges = []
+    for l, r, g, e in cs:
+        g = Fraction(g)
+        edges.append((l, r, g))
+        if e:
+            edges.append((r, l, -g))
+    dist = [Fraction(0)] * nvars
+    for it in range(nvars + 1):
+        changed = False
+        for l, r, g in edges:
+            if l < nvars and r < nvars and dist[l] + g > dist[r]:
+                dist[r] = dist[l] + g
+                changed = True
+        if not changed:
+            return True
+    return False
+
+
+def has_equality_cycle(nvars, cs):
+    """is there a cycle made of equality constraints only (a redundant or contradictory equality)?  union-find"""
+    par = list(range(nvars))
+
+    def find(a):
+        while par[a] != a:
+            par[a] = par[par[a]]
+            a = par[a]
+        return a
+    for l, r, g, e in cs:
+        if e and l < nvars and r < nvars:
+            a, b = find(l), find(r)
+            if a == b:
+                return True
+            par[a] = b
+    return False
+
+
+def cc_edges(case, d):
+    """classifier support (labels only, never the verdict): per compound constraint the separation constraints it generates in
+    dimension d as (l, r, gap, eq) over Fractions, re-derived here from the case; alignment-referencing constraints also carry
+    the edges of the alignments they refer to (their meaning goes through them).  None if the system does not generate."""
+    n, ccs = case['n'], case['ccs']
+    vid, nxt = {}, n
+    for i, cc in enumerate(ccs):
+        if cc['code'] in (3, 4) and cc['d'] == d:
+            vid[i] = nxt; nxt += 1
+        elif cc['code'] == 8 and cc['w'] != 0:
+            vid[i] = nxt; nxt += 2
+    Q = lambda k: Fraction(k, 16)
+    own = []
+    for i, cc in enumerate(ccs):
+        e, k = [], cc['code']
+        if k == 1 and cc['d'] == d:
+            e.append((cc['l'], cc['r'], Q(cc['g']), cc['e']))
+        elif k == 2 and cc['d'] == d:
+            if cc['la'] not in vid or cc['ra'] not in vid:
+                return None, nxt
+            e.append((vid[cc['la']], vid[cc['ra']], Q(cc['g']), cc['e']))
+        elif k == 3 and cc['d'] == d:
+            e += [(vid[i], s, Q(o), True) for s, o in cc['sh']]
+        elif k == 4 and cc['d'] == d:
+            e += [((s, vid[i], Q(-o), False) if o < 0 else (vid[i], s, Q(o), False)) for s, o in cc['sh']]
+        elif k in (5, 6) and cc['d'] == d:
+            for a, b in cc['prs']:
+                if a not in vid or b not in vid or ccs[a]['code'] != 3 or ccs[b]['code'] != 3:
+                    return None, nxt
+                e.append((vid[a], vid[b], Q(cc['sep']), True if k == 5 else cc['e']))
+        elif k == 7:
+            ids = sorted(set(cc['ids']))
+            c0 = [Fraction(r[0] + r[1], 32) if d == 0 else Fraction(r[2] + r[3], 32) for r in case['rects']]
+            e += [(ids[0], t, c0[t] - c0[ids[0]], True) for t in ids[1:]]
+        elif k == 8 and i in vid:
+            for s, hx, hy in cc['sh']:
+                h = Q(hx if d == 0 else hy)
+                e += [(vid[i], s, h, False), (s, vid[i] + 1, h, False)]
+        own.append(e)
+    full = []
+    for i, cc in enumerate(ccs):
+        e = list(own[i])
+        for a in refs_of(cc):
+            if a < len(own) and ccs[a]['code'] == 3 and ccs[a]['d'] == d:
+                e += own[a]
+        full.append(e)
+    return (own, full), nxt
+
+
+def on_positive_closed_walk(nvars, all_edges, mine):
+    """does some separation constraint in `mine` lie on a closed walk of positive total gap (an infeasible cycle) of the
+    constraint graph?  walks of at most nvars edges; exact arithmetic"""
+    dire = []
+    for l, r, g, e in all_edges:
+        dire.append((l, r, g))
+        if e:
+            dire.append((r, l, -g))
+    for l0, r0, g0, e0 in mine:
+        for (a, b, g) in ([(l0, r0, g0), (r0, l0, -g0)] if e0 else [(l0, r0, g0)]):
+            if a >= nvars or b >= nvars:
+                continue
+            NEG = None
+            best = [NEG] * nvars
+            best[b] = Fraction(0)
+            for _ in range(nvars):
+                nb = list(best)
+                for l, r, w in dire:
+                    if l < nvars and r < nvars and best[l] is not None and (nb[r] is None or best[l] + w > nb[r]):
+                        nb[r] = best[l] + w
+                best = nb
+                if best[a] is not None and best[a] + g > 0:
+                    return True
+    return False
+
+
 def refs_of(cc):
     if cc['code'] == 2:
         return [cc['la'], cc['ra']]
@@ -329,7 +463,7 @@ def layouts(res, rng, ncases, cpp, ml, corpus=True):
             if f.startswith('c07_layout_') and f.endswith('.json'):
                 cases.insert(0, json.load(open(os.path.join(C.VERIF, 'corpus', f))))
     lines = [case_line(c, layout=True) for c in cases]
-    rc, out, err = run_lines(cpp, ['layout'], lines, timeout=1800)
+    rc, out, err = run_restarting(cpp, ['layout', '6'], lines)
     stats = {'layouts': 0, 'reported_unsat': 0, 'exceptions': 0, 'cc_evaluated': 0, 'cc_excluded_reported': 0, 'by_mode': {}, 'by_kind': {},
              'by_type': {}, 'unchecked_huge': 0}
     viols = []
@@ -340,12 +474,33 @@ def layouts(res, rng, ncases, cpp, ml, corpus=True):
         viols.append({'what': 'layout harness crashed (signal/abort) on this case', 'rc': rc, 'case': bad,
                       'stderr': err[-1500:], 'replay': 'echo "%s" | <c07_cc harness> layout' % (lines[done] if bad else '')})
         cases = cases[:done]
+    # the model's generated constraints per dimension -> is the user system jointly satisfiable?
+    rcg, og, eg = run_lines(ml, ['gen'], [case_line(c) for c in cases])
+    for i, c in enumerate(cases):
+        c['feasible'] = [None, None]
+        if rcg == 0 and len(og) >= 2 * len(cases):
+            for d in (0, 1):
+                g = parse_gen(og[2 * i + d])
+                if g[0] == 'OK':
+                    c['feasible'][d] = feasible(c['n'] + len(g[1]), g[3])
+                    c.setdefault('eqcycle', [None, None])[d] = has_equality_cycle(c['n'] + len(g[1]), g[3])
+                    c.setdefault('haseq', [None, None])[d] = any(e for (_, _, _, e) in g[3])
     chk_lines, chk_idx, parsed = [], [], []
     for i, c in enumerate(cases):
         r = parse_layout(out[i], c['n'])
         parsed.append(r)
         if r is None:
             if out[i].startswith('SKIP'):
+                continue
+            if out[i].startswith('HANG'):
+                phase = out[i].split()[1] if len(out[i].split()) > 1 else '?'
+                stats['hangs'] = stats.get('hangs', 0) + 1
+                v = {'what': 'layout call did not return within the CPU-time limit (6 s; typical: milliseconds) - non-termination in ' + phase,
+                     'phase': phase, 'case': c, 'replay': 'echo "%s" | <c07_cc harness> layout 6' % lines[i]}
+                # classifier for the known non-termination of makeFeasible(): overlap avoidance on and the loop is in makeFeasible
+                if phase == 'makeFeasible' and c['overlap'] == 1 and c['mode'] in (0, 2):
+                    v['fingerprint'] = 'makefeasible_hang_unsat_nonoverlap'
+                viols.append(v)
                 continue
             viols.append({'what': 'unparsable harness output', 'case': c, 'output': out[i][:300]}); continue
         stats['layouts'] += 1
@@ -354,8 +509,12 @@ def layouts(res, rng, ncases, cpp, ml, corpus=True):
         stats['by_kind'][c['kind']] = stats['by_kind'].get(c['kind'], 0) + 1
         if r['EXC']:
             stats['exceptions'] += 1
-            viols.append({'what': 'layout threw: the postcondition of C07 is not delivered', 'exception': r['EXC'], 'case': c,
-                          'replay': 'echo "%s" | <c07_cc harness> layout' % lines[i]})
+            v = {'what': 'layout threw: the postcondition of C07 is not delivered', 'exception': r['EXC'], 'case': c,
+                 'replay': 'echo "%s" | <c07_cc harness> layout' % lines[i]}
+            # classifier: the char* that only IncSolver::satisfy's final scan throws (solve_VPSC.cpp:326), out of the majorization layout
+            if r['EXC'].startswith('char*') and c['mode'] == 3:
+                v['fingerprint'] = 'vpsc_satisfy_throws_charptr'
+            viols.append(v)
             continue
         bad_num = [j for j, q in enumerate(r['R']) if not all(math.isfinite(x) for x in q)]
         if bad_num:
@@ -390,14 +549,40 @@ def layouts(res, rng, ncases, cpp, ml, corpus=True):
                         if excluded:
                             stats['cc_excluded_reported'] += 1
                             continue
+                        if c['mode'] == 2 and c['feasible'][d] is not True:
+                            # makeFeasible() alone has no channel to report what it dropped: domain = jointly satisfiable systems
+                            stats['cc_skipped_mf_only_infeasible'] = stats.get('cc_skipped_mf_only_infeasible', 0) + 1
+                            continue
                         stats['cc_evaluated'] += 1
                         stats['by_type'][tname] = stats['by_type'].get(tname, 0) + 1
                         if flags[j][d] != '1':
-                            viols.append({'what': 'compound constraint violated by more than 1e-4 in the final layout and not reported unsatisfiable',
-                                          'constraint_index': j, 'constraint': cc, 'type': tname, 'dim': 'XY'[d],
-                                          'final_centres': [q[:2] for q in r['R']], 'reported_unsat_X': r['UX'], 'reported_unsat_Y': r['UY'],
-                                          'case': c, 'replay': 'echo "%s" | <c07_cc harness> layout' % lines[i]})
-                    if cc['code'] == 8 and j in r['PG']:
+                            v = {'what': 'compound constraint violated by more than 1e-4 in the final layout and not reported unsatisfiable',
+                                 'constraint_index': j, 'constraint': cc, 'type': tname, 'dim': 'XY'[d],
+                                 'user_system_jointly_satisfiable_in_dim': c['feasible'][d],
+                                 'final_centres': [q[:2] for q in r['R']], 'reported_unsat_X': r['UX'], 'reported_unsat_Y': r['UY'],
+                                 'case': c, 'replay': 'echo "%s" | <c07_cc harness> layout' % lines[i]}
+                            # classifier for "constraints dropped by the projection in moveTo() are never reported" (colafd.cpp:1063-1098):
+                            # ConstrainedFDLayout run(); the violated constraint lies on an infeasible cycle (a closed walk of positive total
+                            # gap) of the separation constraints generated for that dimension - exact oracle - and at least one constraint
+                            # IS reported unsatisfiable in that dimension (the solver dropped another member of the cycle where it is reported)
+                            rep_any = (r['UX'] if d == 0 else r['UY'])
+                            if c['mode'] in (0, 1) and len(rep_any) > 0:
+                                ed, nvars = cc_edges(c, d)
+                                if ed is not None:
+                                    alle = [e for es in ed[0] for e in es]
+                                    if on_positive_closed_walk(nvars, alle, ed[1][j]):
+                                        v['on_infeasible_cycle'] = True
+                                        v['fingerprint'] = 'unreported_drop_in_moveTo'
+                            # classifier for "makeFeasible() alone rejects a satisfiable constraint when equalities are involved":
+                            #  :cycle   - the solver flags a *satisfied* equality that closes a cycle of equalities as unsatisfiable
+                            #             (solve_VPSC.cpp:259-262) and makeFeasible (colafd.cpp:791-803) blames the constraint it has just added;
+                            #  :nocycle - IncSolver cannot satisfy a new equality whose slack is positive inside one block when the path to
+                            #             relax runs against the constraint directions (splitBetween returns nullptr -> flagged)
+                            if c['mode'] == 2 and c['feasible'][d] is True and c.get('haseq', [None, None])[d]:
+                                v['fingerprint'] = 'makefeasible_rejects_satisfiable_equality:' + \
+                                                   ('cycle' if c.get('eqcycle', [None, None])[d] else 'nocycle')
+                            viols.append(v)
+                    if cc['code'] == 8 and j in r['PG'] and c['mode'] != 2:
                         # soft page boundary: every rectangle inside the *actual* margins the constraint reports
                         xl, xr, yl, yr = r['PG'][j]
                         for s, hx, hy in cc['sh']:
@@ -415,16 +600,85 @@ def run(tier):
     res = C.Result(PID, tier, 'proof')
     rng = C.SplitMix64(C.get_seed() ^ 0xC07)
     info = C.prove(res, PID)
+    res.assumptions = [
+        'the hypothesis of C07_projection_establishes ("every generated separation constraint holds to eps on the projection\'s output") is property C01; it is not re-proved here',
+        'the control-flow trace of ConstrainedFDLayout::run (run_trace) is a hand model of colafd.cpp:286-380, 1063-1161: no topology addon, no preIteration callback, the convergence test does not write X/Y, at least one iteration',
+        'vpsc::Rectangle borders are 0 outside makeFeasible; binary64 arithmetic is exact on the dyadic parameters of the correspondence (validated by it)',
+        'V-runs: final centres are rounded to 2^-20 before the exact checker, whose tolerance is 1e-4 + 4*2^-20; makeFeasible()-only runs are checked only when the '
+        'user system is jointly satisfiable (exact Bellman-Ford oracle on the model\'s constraints) because makeFeasible has no reporting channel']
     cpp = C.build_harness('c07_cc', ['libcola', 'libvpsc'], 'exc')
     ml = C.ocaml_build('c07model', 'C07model.v', 'c07_driver.ml', 'c07_model.ml')
-    ncorr = 600 if tier == 'quick' else 4000
+    ncorr = 1500 if tier == 'quick' else 12000
+    nlay = 500 if tier == 'quick' else 4000
     cases, diffs, hist, ntriv, samples = correspondence(res, rng.fork(), ncorr, cpp, ml)
-    print(len(cases), len(diffs), hist, ntriv)
-    for d in diffs[:3]:
-        print(json.dumps(d)[:1500])
+    lcases, viols, stats = layouts(res, rng.fork(), nlay, cpp, ml)
+    # ---- decide
+    real = 0
+    for v in viols:
+        if v.get('machinery'):
+            continue
+        fp = v.pop('fingerprint', None)
+        if res.violation(v, fingerprint=fp):
+            real += 1
+        if len(res.violations) >= 8:
+            break
+    machinery = [v for v in viols if v.get('machinery')]
+    if real == 0 and (not info['ok'] or diffs or machinery):
+        # a proof or the model/implementation correspondence broke.  Search: the verified checker has just been run on
+        # `nlay` real layouts (above) and on the corpus without finding a violated, unreported constraint.
+        res.violation({'what': 'proof obligation or generator correspondence no longer checks; the verified checker found no violated '
+                               'constraint on %d real layouts' % stats['layouts'],
+                       'broken_files': info.get('broken'), 'broken_lemmas': info.get('broken_lemmas'), 'forbidden': info.get('forbidden'),
+                       'correspondence_disagreements': diffs[:3], 'machinery': machinery[:2], 'coq_log_tail': info['log'][-2500:]},
+                      no_input=True)
+    res.cov.update({
+        'evaluations': 2 * len(cases) + stats['cc_evaluated'],
+        'distinct_nontrivial': ntriv + stats['layouts'],
+        'rule': 'correspondence: (case, dimension) pairs whose generated constraint list is non-empty; V: layouts actually run to completion and checked',
+        'exhaustive': False,
+        'samples': samples,
+        'traces_validated_against_impl': 2 * len(cases),
+        'correspondence': {'cases': len(cases), 'dimension_runs': 2 * len(cases), 'disagreements': len(diffs), 'histogram': hist},
+        'layout_validation': stats,
+        'layout_feasibility_histogram': {'X_infeasible': sum(1 for c in lcases if c.get('feasible', [None])[0] is False),
+                                         'Y_infeasible': sum(1 for c in lcases if c.get('feasible', [None, None])[1] is False),
+                                         'both_feasible': sum(1 for c in lcases if c.get('feasible') == [True, True])},
+    })
+    return res.finish()
+
+
+def replay(path):
+    obj = json.load(open(path))
+    print(json.dumps(obj, indent=1)[:6000])
+    case = obj.get('case')
+    if case and 'replay' in obj:
+        cpp = C.build_harness('c07_cc', ['libcola', 'libvpsc'], 'exc')
+        layout = 'layout' in obj['replay']
+        rc, out, err, dt = C.sh([cpp, 'layout' if layout else 'gen', '6'], input=case_line(case, layout=layout) + '\n', timeout=120)
+        print('--- implementation now:\n' + out)
     return 0
 
 
 def warm():
     C.build_harness('c07_cc', ['libcola', 'libvpsc'], 'exc')
     C.ocaml_build('c07model', 'C07model.v', 'c07_driver.ml', 'c07_model.ml')
+
+
+META = {
+    'property_id': PID,
+    'level_claimed': {
+        'category': 'proof',
+        'text': 'Coq theorems over a hand-written Gallina model of compound_constraints.cpp (generateVariables / generateSeparationConstraints of every '
+                'compound constraint type) that is compared exactly with the compiled library on every run: for each type the generated separation '
+                'constraints are sound and complete for its declarative meaning on the rectangle centres (exists auxiliary values <-> meaning, over Q); '
+                'if a projection satisfies the generated constraints to eps (property C01, hypothesis) every compound constraint holds to 3*eps; in the '
+                'control-flow model of ConstrainedFDLayout::run the last write to X and to Y is a projection output and X constraints do not read Y. '
+                'PARTIAL: makeFeasible()\'s search, the solver delivering the hypothesis, the reporting of dropped constraints and '
+                'ConstrainedMajorizationLayout are only validated on real runs by the extracted verified checker (cc_holdsb, proved equivalent to the meaning).',
+        'design_ref': 'DESIGN.md 5.7'},
+    'level_note': 'Trusted: Coq kernel; hand-written model CompoundCsModel.v (tie = exact comparison of generated (left,right,gap,equality) multisets, auxiliary '
+                  'variables and error kinds with the compiled code on random dyadic inputs, every run); extraction (ExtrOcamlBasic), OCaml/C++/Python drivers; '
+                  'exact-rational model of binary64. No axioms (Print Assumptions: closed). Not covered by proof: force computation, step size, makeFeasible '
+                  'priority/rollback search, VPSC itself (C01/C02), majorization loop.',
+    'technique': 'Coq proof over a hand-written model + exact generator correspondence + extracted verified checker on real layouts',
+}
